@@ -535,6 +535,70 @@ fn bv_batch(out: &mut Out, rng: &mut Rng, bits: &[bool], sup: u64, pairs: bool, 
     emit_bv(out, bits, sup, true, c2);
 }
 
+// `assert!(bit_offset < self.len(), "RawVector::set_bit(): Bit offset is out of bounds")` is an assertion, whatever
+// its message says
+fn fix_set_bit<T>(r: Res<T>) -> Res<T> {
+    match r {
+        Res::Panic(_, msg) if msg.starts_with("RawVector::set_bit()") => Res::Panic(P_ASSERT, msg),
+        other => other,
+    }
+}
+
+// one_iter / zero_iter of a bitvector without supports, driven by random call sequences
+fn bv_iter_only(rng: &mut Rng, bv: &BitVector, nrandom: usize) -> BvCalls {
+    let mut c = BvCalls { terms: Vec::new(), descs: Vec::new(), is9: Vec::new(), oob: false };
+    let len = bv.len();
+    let ones = bv.count_ones();
+    let zeros = len.wrapping_sub(ones);
+    for z in [false, true] {
+        let cnt = if z { zeros } else { ones };
+        let mut seqs = vec![vec![(0u8, 0usize)], vec![(1u8, 0usize)]];
+        seqs.extend(sequences_r(rng, cnt, true, nrandom));
+        for ops in seqs.iter() {
+            let name = if z { "zero_iter()" } else { "one_iter()" };
+            mark(&format!("BitVector::from(raw vector of {} bits).{}:{}", len, name, seq_desc(ops)));
+            let (opened, steps) = if z { drive(|| bv.zero_iter(), ops, step_de, onn) } else { drive(|| bv.one_iter(), ops, step_de, onn) };
+            let mut classes: Vec<u64> = vec![class_of(&opened)];
+            classes.extend(steps.iter().map(|s| class_of(&s.2)));
+            c.push(format!("BIter 0 {} 0 {} {}", b(z), ires(&opened, |_| "tt".to_string()), istep_terms(&steps)),
+                format!("{}:{}", name, seq_desc(ops)), &classes);
+        }
+    }
+    c
+}
+
+// set_bit(i, v) on a copy with any offset - inside the vector, in the unused part of the last word, beyond the
+// words - then BitVector::from of that same copy (unchanged if the call panicked) and its iterators
+fn set_bit_then_iterate(out: &mut Out, rng: &mut Rng, rv: &RawVector, loaded: bool) {
+    let len = rv.len();
+    let words: Vec<u64> = { let w: &[u64] = rv.as_ref(); w.to_vec() };
+    let cap = 64 * words.len();
+    let mut offs: Vec<usize> = vec![0, len.saturating_sub(1), len, len + 1, (len + cap) / 2, cap.saturating_sub(1), cap, cap + 1, cap + 64, 1usize << 63, MAX - 1, MAX];
+    offs.sort();
+    offs.dedup();
+    for i in offs.iter() {
+        for v in [true, false] {
+            if !v && *i != len && *i + 1 != cap {
+                continue;
+            }
+            let mut c = rv.clone();
+            mark(&format!("RawVector(len={}).set_bit({},{})", len, i, v));
+            let r = fix_set_bit(catch(|| { c.set_bit(*i, v); }));
+            out.stat(if *i < len { "set_bit.inside" } else if *i < cap { "set_bit.unused_bits_of_last_word" } else { "set_bit.beyond_the_words" });
+            out.stat(if matches!(r, Res::Ok(_)) { "set_bit.returned" } else { "set_bit.panicked" });
+            let bv = BitVector::from(c);
+            let calls = bv_iter_only(rng, &bv, 6);
+            out.stat_n("calls.bitvector_after_set_bit", calls.terms.len() as u64);
+            let hits: Vec<String> = calls.descs.iter().zip(calls.is9.iter()).filter(|(_, h)| **h).map(|(d, _)| format!("{:?}", d)).collect();
+            let js: Vec<String> = calls.descs.iter().map(|d| format!("{:?}", d)).collect();
+            out.case(if loaded { "raw_set_loaded" } else { "raw_set" },
+                format!("CRawSet {} {} {} {} {} {} {} [{}]", PATH, b(DBG), len, nlist(&words), nz(*i), b(v), ires(&r, |_| "tt".to_string()), calls.terms.join("; ")),
+                format!("{{\"struct\":\"RawVector -> BitVector\",\"len\":{},\"words\":{:?},\"loaded\":{},\"set_bit\":[{},{}],\"set_bit_class\":{},\"beyond_len\":{},\"oob_calls\":[{}],\"calls\":[{}]}}",
+                    len, words, loaded, i, v, class_of(&r), *i >= len, hits.join(","), js.join(",")), true);
+        }
+    }
+}
+
 // ---------------------------------------------------------------- RawVector / IntVector (modelled, every call on a clone)
 
 fn raw_batch(out: &mut Out, rng: &mut Rng, bits: &[bool]) {
@@ -559,7 +623,7 @@ fn raw_batch(out: &mut Out, rng: &mut Rng, bits: &[bool]) {
             let r = catch(|| rv.bit(i));
             add(format!("RBit {} {}", nz(i), ires(&r, |x| b(*x))), format!("bit({})", i), class_of(&r));
             for v in [false, true] {
-                let r = catch(|| { let mut c = rv.clone(); c.set_bit(i, v); });
+                let r = fix_set_bit(catch(|| { let mut c = rv.clone(); c.set_bit(i, v); }));
                 add(format!("RSetBit {} {} {}", nz(i), b(v), ires(&r, |_| "tt".to_string())), format!("set_bit({},{})", i, v), class_of(&r));
             }
             // the unsafe fns inside their documented precondition (width <= 64), at every offset
@@ -609,6 +673,7 @@ fn raw_batch(out: &mut Out, rng: &mut Rng, bits: &[bool]) {
         out.stat_n("calls.rawvector", t.len() as u64);
         out.case(if which { "raw_loaded" } else { "raw" }, format!("CRaw {} {} {} [{}]", b(DBG), len, nlist(&words), t.join("; ")),
             format!("{{\"struct\":\"RawVector\",\"len\":{},\"loaded\":{},\"oob\":{},\"calls\":[{}]}}", len, which, oob, js), true);
+        set_bit_then_iterate(out, rng, &rv, which);
     }
 }
 
@@ -1216,7 +1281,7 @@ fn m_observe<'a, T: MView<'a>>(map: &'a MemoryMap, name: &str, offset: usize, wi
             let inside = v.inside(map.len());
             let mut touch = Vec::new();
             v.touch(&mut touch);
-            // without the bounds hooks the probe would really read outside the mask table (finding F13): the
+            // without the bounds hooks the probe would really read outside the mask table (finding F14): the
             // sanitizer run of the thorough tier leaves it out
             if cfg!(feature = "hooks") {
                 if let Some(w) = v.wide() {
@@ -1364,8 +1429,8 @@ fn mapped_files(rng: &mut Rng, thorough: bool) -> Vec<(String, Vec<MVal>)> {
         // a length that fits in words but not in pairs
         ("pairs, wrong offset".to_string(), vec![MVal::Pairs(vec![(10, 11), (12, 13), (1, 99)])]),
         ("words read as pairs".to_string(), vec![MVal::Vec(vec![5, 6, 7, 8])]),
-        // huge len and width elements in front of a valid raw vector (finding F13)
-        ("huge len/width (F13)".to_string(), vec![MVal::Vec(vec![m, m, 0, 1, 5])]),
+        // huge len and width elements in front of a valid raw vector (finding F14)
+        ("huge len/width (F14)".to_string(), vec![MVal::Vec(vec![m, m, 0, 1, 5])]),
         ("huge len/width 2".to_string(), vec![MVal::Vec(vec![m - 3, m - 3, 0, 2, 9, 9]), MVal::Vec(vec![m - 62, m - 63, 64, 1, m])]),
         ("powers".to_string(), vec![MVal::Vec(vec![1 << 63, 1 << 61, (1 << 61) - 1, (1 << 63) + 1, 1, m - 8, m - 7, 0])]),
         ("huge pairs".to_string(), vec![MVal::Pairs(vec![(1 << 63, 1), (m - 2, m - 2), (1 << 61, 2), ((1 << 63) - 1, 3)])]),
@@ -1527,6 +1592,15 @@ pub fn run(rng: &mut Rng, out: &mut Out, thorough: bool, variant: &str) {
         let seed = rng.next();
         out.stat("struct.rawvector");
         bt.run(out, K_RAW, &format!("RawVector(len={})", len), seed, |o| {
+            let mut r = Rng::new(seed);
+            raw_batch(o, &mut r, &bits);
+        });
+    }
+    for len in [1usize, 63, 65, 130] {
+        let bits = gen_bits(rng, len, Style::Ones);
+        let seed = rng.next();
+        out.stat("struct.rawvector");
+        bt.run(out, K_RAW, &format!("RawVector(len={},all ones)", len), seed, |o| {
             let mut r = Rng::new(seed);
             raw_batch(o, &mut r, &bits);
         });
